@@ -405,7 +405,7 @@ func checkStroke(c Case, r *vf.R) error {
 }
 
 func TestStroke(t *testing.T) {
-	vf.Run(t, vf.Prop[Case]{Sub: "stroke", Gen: genCase, Check: checkStroke, Cases: vf.N(1500, 25000)})
+	vf.Run(t, vf.Prop[Case]{Sub: "stroke", Gen: genCase, Check: checkStroke, Cases: vf.N(6000, 40000)})
 }
 
 // ---------------- Offset of simple closed contours ----------------
@@ -479,7 +479,7 @@ func checkOffset(c OCase, r *vf.R) error {
 }
 
 func TestOffset(t *testing.T) {
-	vf.Run(t, vf.Prop[OCase]{Sub: "offset", Gen: genO, Check: checkOffset, Cases: vf.N(1500, 25000)})
+	vf.Run(t, vf.Prop[OCase]{Sub: "offset", Gen: genO, Check: checkOffset, Cases: vf.N(3000, 25000)})
 }
 
 var _ = fmt.Sprint
